@@ -913,3 +913,204 @@ Proof.
     destruct (w_reg s q); destruct Hin as [<-|[]]; discriminate.
   - destruct Hin.
 Qed.
+
+(* ---------- relays ---------- *)
+
+(* an event relayed to a client is the event that was just reported for that (watched) channel *)
+Theorem relay_faithful tr s e c k v :
+  reach tr s -> In (ORelay c k v) (snd (step s e)) ->
+  watched tr c = true /\
+  match k with
+  | KRegistered => e = ChainRegistered c v
+  | KProgressed => e = ChainProgressed c v
+  | KConcluded => e = ChainConcluded c v
+  end /\ length (filter is_relay (snd (step s e))) = 1%nat.
+Proof.
+  intros R Hin. pose proof (reach_inv _ _ R) as I.
+  destruct e; cbn [step step_gen] in *.
+  - destruct Hin.
+  - destruct (w_reg s ch) as [c0|] eqn:Ec.
+    + destruct (inv_live _ _ _ _ I Ec) as [W _].
+      destruct (registered_outs_in _ _ _ _ _ _ I Ec Hin) as [(_ & pc & _ & Eo)|[Eo Hc]]; [discriminate|].
+      injection Eo as -> -> ->. split; [assumption|]. split; [reflexivity|].
+      destruct (registered_outs _ _ _ v0 _ I Ec) as (pc & Ep & Eo). rewrite Eo in Hin |- *.
+      rewrite Hc in Hin |- *. unfold the_call in *.
+      destruct (refutes v0 c0); destruct (w_fail s); cbn [andb app filter is_relay length] in *;
+        try reflexivity.
+      destruct Hin as [Hin|[]]. discriminate Hin.
+    + rewrite (registered_outs_dead _ _ _ Ec) in Hin. destruct Hin.
+  - unfold handle_other in *. destruct (w_reg s ch) as [c0|] eqn:Ec; [|destruct Hin].
+    destruct Hin as [Hin|[]]. injection Hin as -> <- ->.
+    destruct (inv_live _ _ _ _ I Ec) as [W _]. auto.
+  - unfold handle_other in *. destruct (w_reg s ch) as [c0|] eqn:Ec; [|destruct Hin].
+    destruct Hin as [Hin|[]]. injection Hin as -> <- ->.
+    destruct (inv_live _ _ _ _ I Ec) as [W _]. auto.
+  - unfold start_ledger in Hin. destruct (w_reg s ch); destruct Hin as [?|[]]; discriminate.
+  - unfold start_sub in Hin. destruct (w_reg s parent) as [pc|]; [|destruct Hin as [?|[]]; discriminate].
+    destruct (is_sub pc); [destruct Hin as [?|[]]; discriminate|].
+    destruct (w_reg s ch); destruct Hin as [?|[]]; discriminate.
+  - unfold stop_gen, stop_finish in Hin.
+    destruct (w_reg s ch) as [c0|]; [|destruct Hin as [?|[]]; discriminate].
+    destruct (refuses c0); [destruct Hin as [?|[]]; discriminate|].
+    destruct (c_done c0); [destruct Hin as [?|[]]; discriminate|].
+    destruct (c_parent c0) as [q|]; [|destruct Hin as [?|[]]; discriminate].
+    destruct (w_reg s q); destruct Hin as [?|[]]; discriminate.
+  - destruct Hin.
+Qed.
+
+Lemma relay_versions_in os ch v : In v (relay_versions os ch) -> In (ORelay ch KRegistered v) os.
+Proof.
+  induction os as [|o os IH]; [intros []|]. cbn [relay_versions].
+  destruct o as [| c k w | | |]; try (intros H; right; now apply IH).
+  destruct k; try (intros H; right; now apply IH).
+  destruct (N.eqb_spec c ch) as [->|Hn]; [|intros H; right; now apply IH].
+  intros [<-|H]; [now left|right; now apply IH].
+Qed.
+
+Lemma relayed_unwatched tr s ch : reach tr s -> watched tr ch = false -> relayed tr ch = [].
+Proof.
+  induction 1 as [|tr s e R IH]; [reflexivity|]. intros W.
+  set (x := (e, snd (step s e))) in *.
+  cbn [watched relayed] in *.
+  destruct (started x) as [[[[c p] m] t]|] eqn:Hs.
+  - destruct (N.eqb c ch); [discriminate|auto].
+  - destruct (stopped x) as [c|] eqn:Ht.
+    + destruct (N.eqb c ch); [reflexivity|auto].
+    + rewrite (IH W), app_nil_r.
+      destruct (relays x ch) as [|v l] eqn:El; [reflexivity|exfalso].
+      assert (Hin : In v (relays x ch)) by (rewrite El; now left).
+      apply relay_versions_in in Hin. cbn [snd x] in Hin.
+      destruct (relay_faithful _ _ _ _ _ _ R Hin) as [W' _]. congruence.
+Qed.
+
+(* registered events reach a client at most once each and in strictly increasing version order:
+   the versions relayed since the channel was started, newest first, are strictly decreasing *)
+Theorem relay_monotone tr s ch : reach tr s -> desc (relayed tr ch).
+Proof.
+  intros R. pose proof (reach_inv _ _ R) as I.
+  destruct (w_reg s ch) as [c|] eqn:Ec.
+  - destruct (inv_live _ _ _ _ I Ec) as [_ K]. apply (ok_relay _ _ _ _ K).
+  - rewrite (relayed_unwatched _ _ _ R (inv_dead _ _ _ I Ec)). constructor.
+Qed.
+
+Lemma desc_nodup l : desc l -> NoDup l.
+Proof.
+  induction 1 as [|a l D IH Hall]; constructor; [|assumption].
+  intros Hin. rewrite Forall_forall in Hall. specialize (Hall a Hin). cbn beta in Hall. lia.
+Qed.
+
+Theorem relay_once tr s ch : reach tr s -> NoDup (relayed tr ch).
+Proof. intros R. apply desc_nodup. now apply relay_monotone with (s := s). Qed.
+
+(* progressed and concluded events are always relayed, and change nothing *)
+Theorem relay_progress tr s ch v :
+  reach tr s -> watched tr ch = true ->
+  step s (ChainProgressed ch v) = (s, [ORelay ch KProgressed v]) /\
+  step s (ChainConcluded ch v) = (s, [ORelay ch KConcluded v]).
+Proof.
+  intros R W. destruct (inv_watched _ _ _ (reach_inv _ _ R) W) as [c Ec].
+  cbn [step step_gen]. unfold handle_other. now rewrite Ec.
+Qed.
+
+(* ---------- stop ---------- *)
+
+(* a refused stop returns the very same state: everything the watcher does afterwards is what it would
+   have done without the call; in particular the call can be repeated with the same result *)
+Theorem refused_stop_is_noop s ch :
+  snd (step s (Stop ch)) = [OStop StopRefused] -> step s (Stop ch) = (s, [OStop StopRefused]).
+Proof.
+  cbn [step step_gen]. unfold stop_gen, stop_finish.
+  destruct (w_reg s ch) as [c|]; [|discriminate].
+  destruct (refuses c); [reflexivity|].
+  destruct (c_done c); [discriminate|].
+  destruct (c_parent c) as [q|]; [|discriminate].
+  destruct (w_reg s q); discriminate.
+Qed.
+
+(* it is refused exactly for a watched ledger channel that still has a watched sub-channel *)
+Theorem stop_refused_iff tr s ch :
+  reach tr s ->
+  snd (step s (Stop ch)) = [OStop StopRefused] <->
+  (watched tr ch = true /\ exists z, watched tr z = true /\ parent_of tr z = Some ch).
+Proof.
+  intros R. pose proof (reach_inv _ _ R) as I.
+  cbn [step step_gen]. unfold stop_gen, stop_finish.
+  destruct (w_reg s ch) as [c|] eqn:Ec.
+  - destruct (inv_live _ _ _ _ I Ec) as [W K].
+    destruct (refuses c) eqn:Er.
+    + split; [intros _|reflexivity]. split; [assumption|].
+      unfold refuses in Er. apply andb_prop in Er. destruct Er as [_ Er].
+      destruct (c_subs c) as [|z l] eqn:Es; [discriminate|].
+      exists z. apply (ok_subs _ _ _ _ K). rewrite Es. now left.
+    + rewrite (ok_done _ _ _ _ K). split.
+      * destruct (c_parent c) as [q|]; [|discriminate]. destruct (w_reg s q); discriminate.
+      * intros (_ & z & Wz & Pz). exfalso.
+        assert (Hin : In z (c_subs c)) by (apply (ok_subs _ _ _ _ K); auto).
+        destruct (inv_watched _ _ _ I Wz) as [cz Ez]. destruct (inv_live _ _ _ _ I Ez) as [_ Kz].
+        rewrite (ok_parent _ _ _ _ Kz) in Pz. destruct (ok_par _ _ _ _ Kz _ Pz) as (pc & Ep & Pn).
+        assert (pc = c) by congruence. subst pc.
+        rewrite (refuses_false _ Er Pn) in Hin. destruct Hin.
+  - split; [discriminate|]. intros [W _]. rewrite (inv_dead _ _ _ I Ec) in W. discriminate.
+Qed.
+
+(* the modelled Go panic (close of a closed channel) and the model's own gap marker never occur *)
+Theorem no_panic tr s e :
+  reach tr s -> ~ In (OStop StopPanic) (snd (step s e)) /\ ~ In OUnreachable (snd (step s e)).
+Proof.
+  intros R. pose proof (reach_inv _ _ R) as I.
+  assert (G : forall o, In o (snd (step s e)) -> o <> OStop StopPanic /\ o <> OUnreachable).
+  2:{ split; intros H; destruct (G _ H); congruence. }
+  intros o Hin. destruct e; cbn [step step_gen] in Hin.
+  - destruct Hin.
+  - destruct (w_reg s ch) as [c|] eqn:Ec.
+    + destruct (registered_outs_in _ _ _ _ _ _ I Ec Hin) as [(_ & pc & _ & ->)|[-> _]];
+        split; discriminate.
+    + rewrite (registered_outs_dead _ _ _ Ec) in Hin. destruct Hin.
+  - unfold handle_other in Hin. destruct (w_reg s ch); [destruct Hin as [<-|[]]; split; discriminate|destruct Hin].
+  - unfold handle_other in Hin. destruct (w_reg s ch); [destruct Hin as [<-|[]]; split; discriminate|destruct Hin].
+  - unfold start_ledger in Hin. destruct (w_reg s ch); destruct Hin as [<-|[]]; split; discriminate.
+  - unfold start_sub in Hin. destruct (w_reg s parent) as [pc|]; [|destruct Hin as [<-|[]]; split; discriminate].
+    destruct (is_sub pc); [destruct Hin as [<-|[]]; split; discriminate|].
+    destruct (w_reg s ch); destruct Hin as [<-|[]]; split; discriminate.
+  - unfold stop_gen, stop_finish in Hin.
+    destruct (w_reg s ch) as [c|] eqn:Ec; [|destruct Hin as [<-|[]]; split; discriminate].
+    destruct (inv_live _ _ _ _ I Ec) as [W K].
+    destruct (refuses c); [destruct Hin as [<-|[]]; split; discriminate|].
+    rewrite (ok_done _ _ _ _ K) in Hin.
+    destruct (c_parent c) as [q|] eqn:Epar; [|destruct Hin as [<-|[]]; split; discriminate].
+    destruct (ok_par _ _ _ _ K _ Epar) as (pc & Ep & _). rewrite Ep in Hin.
+    destruct Hin as [<-|[]]; split; discriminate.
+  - destruct Hin.
+Qed.
+
+(* ---------- histories as lists of events ---------- *)
+
+Lemma run_reach es : forall tr s,
+  reach tr s ->
+  reach (rev (combine es (snd (run s es))) ++ tr) (fst (run s es)).
+Proof.
+  induction es as [|e es IH]; intros tr s R; [exact R|].
+  unfold run in *. cbn [run_gen].
+  change (step_gen false s e) with (step s e).
+  destruct (step s e) as [s1 o] eqn:E1.
+  specialize (IH ((e, o) :: tr) s1).
+  destruct (run_gen false s1 es) as [s2 os] eqn:E2. cbn [fst snd combine rev] in *.
+  rewrite <- app_assoc. cbn [app]. apply IH.
+  pose proof (reach_cons _ _ e R) as R'. now rewrite E1 in R'.
+Qed.
+
+Definition trace_of (es : list event) : trace := rev (combine es (snd (run init es))).
+
+Lemma trace_of_reach es : reach (trace_of es) (fst (run init es)).
+Proof.
+  unfold trace_of. pose proof (run_reach es [] init reach_nil) as H. now rewrite app_nil_r in H.
+Qed.
+
+Definition single_ledgerb (tr : trace) : bool :=
+  forallb (fun x => match started x with Some (_, _, m, _) => negb m | None => true end) tr.
+
+Lemma single_ledgerb_ok tr : single_ledgerb tr = true -> single_ledger tr.
+Proof.
+  unfold single_ledgerb, single_ledger. rewrite forallb_forall. intros H x c p m t Hin Hs.
+  specialize (H x Hin). rewrite Hs in H. now destruct m.
+Qed.
